@@ -5297,6 +5297,10 @@ class PyCdlib:
                         new_list.append((linkrec, is_pvd))
                 entry.inode.linked_records = new_list
 
+                # The file is no longer a boot file, so it must not get a Boot
+                # Info Table patched into it anymore.
+                entry.inode.boot_info_table = None
+
                 # If the El Torito entry was the last reference to this data
                 # (the boot file had been hidden), release the data as well.
                 if not entry.inode.linked_records:
